@@ -71,6 +71,8 @@ class Work:
 # ----------------------------------------------------------------------------
 def build_harness(w):
     """Build the replay binary from /repo's current working tree (tag verif)."""
+    if getattr(w, "binary", None):
+        return w.binary
     out = w.path("harness.test")
     env = dict(os.environ, **GOENV)
     hdir = os.path.join(ROOT, "harness")
@@ -88,6 +90,7 @@ def build_harness(w):
         log(p.stdout[-4000:])
         raise Inconclusive("harness build failed (teleport does not compile with tag verif?)")
     log("[build] harness built from %s in %.1fs" % (REPO, time.time() - t))
+    w.binary = out
     return out
 
 
